@@ -60,6 +60,7 @@ type interp struct {
 	loopMemo        map[string]*loopMemo
 	sentinels       map[*ssa.Global]bool
 	maxJoin         int
+	wrapSeen        bool
 	retCap          int
 	bindFrame       *frameID
 	inlinedClosures map[*ssa.Function]bool
